@@ -44,7 +44,7 @@ func verifBody_C19_replaycache() {
 }
 
 func VH_C19_cipherlist() {
-	for rep := 0; rep < verifRepeat(150); rep++ {
+	for rep := 0; rep < verifRepeat(1500); rep++ {
 		verifBody_C19_cipherlist()
 	}
 }
@@ -52,22 +52,43 @@ func VH_C19_cipherlist() {
 func verifBody_C19_cipherlist() {
 	verifRaceDetect(true)
 	verifSched(1)
-	cl, _, _ := verifMakeList(2, 2, false)
+	oldLen, scale := 2, 1
+	if verifNative() {
+		oldLen, scale = 400, 200 // long lists widen the windows natively
+	}
+	mk := func(id string, n int) *list.List {
+		l := list.New()
+		for i := 0; i < n; i++ {
+			e := MakeCipherEntry(id, verifKey(0, "s3"), "s3")
+			l.PushBack(&e)
+		}
+		return l
+	}
+	cl := NewCipherList()
+	cl.Update(mk("old", oldLen))
 	ip := netip.AddrFrom4([4]byte{203, 0, 113, 5})
 	snap := cl.SnapshotForClientIP(ip)
-	verifPar(
-		func() {
-			s := cl.SnapshotForClientIP(ip)
-			_ = s[0].Value.(*CipherEntry).ID
-		},
+	newLen := (1 + 2*verifChoice("new-list-longer", 2)) * scale
+	var s []*list.Element
+	fresh := mk("new", newLen)
+	verifParStart(make(chan struct{}),
+		func() { s = cl.SnapshotForClientIP(ip) },
 		func() { cl.MarkUsedByClientIP(snap[1], ip) },
-		func() {
-			l := list.New()
-			e := MakeCipherEntry("new", verifKey(0, "s3"), "s3")
-			l.PushBack(&e)
-			cl.Update(l)
-		},
+		func() { cl.Update(fresh) },
 	)
+	// the snapshot equals the one of some sequential order: the whole old list or the whole new one
+	nOld, nNew, nNil := 0, 0, 0
+	for _, el := range s {
+		switch {
+		case el == nil:
+			nNil++
+		case el.Value.(*CipherEntry).ID == "new":
+			nNew++
+		default:
+			nOld++
+		}
+	}
+	verifAssert("C19.cipherlist.snapshot-of-one-list", nNil == 0 && ((nOld == oldLen && nNew == 0) || (nOld == 0 && nNew == newLen)))
 	verifReach("C19.cipherlist.done", true)
 }
 
